@@ -762,10 +762,18 @@ theorem hooks_in_use (tab : List MarkType) :
 /-
 -- OPEN (what is left of the last composition step).
 --
--- Proved now (this section): the simulation from the handlers of `Emu/Core` to bay
--- writes (`Sim.modelEvent`, Lemmas/CoreBayHandlers), hence `emu_event` — the statement
--- that used to be here — for every event, `emu_init` for `mkEmu`, and `emu_history` /
--- `emu_run` for every accepted history; the mirror is no longer a hypothesis.
+-- Proved now (this section + Lemmas/CoreBay*.lean): the simulation from the handlers of
+-- `Emu/Core` to bay writes (`Sim.modelEvent`, a structural induction over `modelEvent`:
+-- thread.c / cpu.c operations, `withChan`, the table-driven models, the ovni thread,
+-- affinity and flush events, the kernel model's out-of-CPU flag), hence `emu_event` — the
+-- statement that used to be here — for EVERY accepted event, `emu_init` for `mkEmu`, and
+-- `emu_history` / `emu_run` for every accepted history.  The mirror is no longer a
+-- hypothesis: `Inv` is established by `emu_connect` and preserved by every event, and
+-- `emu_thread_rows` / `emu_cpu_rows` read the rows off it.  The simulation is refined by
+-- source class (`SimP`): thread / affinity events write only thread-state and
+-- `th_running` / `th_active` channels, model events only raw channels; C20 uses this for
+-- the order in which the CPU track outputs enter the dirty list
+-- (`C20.dirty_level_ordered_sys`).
 --
 -- Still open:
 --  (1) `View.records` = what the emit callbacks see.  `emu_event` gives the VALUES of all
@@ -777,16 +785,22 @@ theorem hooks_in_use (tab : List MarkType) :
 --      unchanged value; `View.emitView` emits only on change, i.e. it already folds the
 --      SKIPDUP behaviour in.  Not modelled in Lean; covered by X2 (e2e comparison of
 --      every PRV line with the real `ovniemu`).
---  (2) The system channels that no mux reads (thread `cpu` / `tid`, CPU `nrunning` /
+--  (2) The one place where values differ (`emu_cpu_rows`, second disjunct): a CPU track
+--      with a non-null default on a CPU whose `th_running` was never written shows null in
+--      the bay (and in the C emulator), the default in `cpuView`.  No record is involved.
+--  (3) The system channels that no mux reads (thread `cpu` / `tid`, CPU `nrunning` /
 --      `pid` / `tid`) are not part of `bayOf`; their rows are `emitRaw` of the emulator
 --      channel itself.
---  (3) The task layer of nOS-V / Nanos6 (`VT*`, `VY*`, `6T*`, `6Y*`) is a hook of
---      `modelEvent` (`Emu/Task.lean` has its own state); for it `HookSim` is a hypothesis.
---  (4) `Shape.connect` returning `.ok` is a hypothesis (it does for every hierarchy whose
+--  (4) The task layer of nOS-V / Nanos6 (`VT*`, `VY*`, `6T*`, `6Y*`) is a hook of
+--      `modelEvent` (`Emu/Task.lean` has its own state); for it `HookSim` is a hypothesis
+--      (`hooks_in_use`: it holds for the hooks the driver runs, `noHook` and `markEvent`).
+--  (5) `Shape.connect` returning `.ok` is a hypothesis (it does for every hierarchy whose
 --      thread tracking modes are ANY / RUN / ACT and CPU modes RUN, cf.
 --      `generated_thread_modes`, `generated_cpu_modes`; totality of the connection
---      functions is not proved, the `example`s below run it).
---  (5) Outside the frame condition as before: muxes whose select is one of their own
+--      functions is not proved, the `example`s below run it), as are: at least one
+--      thread, distinct model characters, connect-time values on single channels
+--      (`emu_init`; all three decidable on a given hierarchy).
+--  (6) Outside the frame condition as before: muxes whose select is one of their own
 --      inputs, and chained muxes (breakdown model) — X1 only.
 -/
 
